@@ -46,13 +46,33 @@ def _random_latin(rng, n):
 def gen_problem(rng, tier):
     n = rng.choice([1, 2, 2, 3, 3, 3, 3, 4])
     g = _random_latin(rng, n)
+    return _finish(rng, n, g)
+
+
+def _big_latin(rng, n):
+    """A Latin square of any order without enumeration: the cyclic square with rows, columns and heights permuted."""
+    rows, cols, syms = list(range(n)), list(range(n)), list(range(1, n + 1))
+    rng.shuffle(rows)
+    rng.shuffle(cols)
+    rng.shuffle(syms)
+    return [[syms[(rows[y] + cols[x]) % n] for x in range(n)] for y in range(n)]
+
+
+def extra_program_problems(rng):
+    """Larger boards for the program correspondence only (nothing is enumerated there; the board is square by construction):
+    n = 8, n = 17 and n = 16 (289 / 256 cells), clues read off a random Latin square, same clue modes as the small boards."""
+    return [_finish(rng, n, _big_latin(rng, n), mode=rng.choice(["all", "some", "some", "noisy"])) for n in (8, 17, 16)]
+
+
+def _finish(rng, n, g, mode=None):
     truth = {
         "up": [_visible([g[y][x] for y in range(n)]) for x in range(n)],
         "dw": [_visible([g[y][x] for y in reversed(range(n))]) for x in range(n)],
         "lf": [_visible(g[y]) for y in range(n)],
         "rg": [_visible(list(reversed(g[y]))) for y in range(n)],
     }
-    mode = rng.choice(["none", "all", "some", "some", "noisy"])
+    if mode is None:
+        mode = rng.choice(["none", "all", "some", "some", "noisy"])
     keep = {"none": 0.0, "all": 1.0, "some": 0.4, "noisy": 0.5}[mode]
     pb = {"n": n}
     for side in ("up", "dw", "lf", "rg"):
